@@ -37,7 +37,7 @@ def _case(draw):
 
 def drivers(tier):
     th = tier == 'thorough'
-    return [dict(kind='hyp', name='summaries', strategy=_case(), examples=30000 if th else 2000)]
+    return [dict(kind='hyp', name='summaries', strategy=_case(), examples=100000 if th else 10000)]
 
 
 def _peak_ok(W, k, ch):
